@@ -106,3 +106,15 @@ def build():
     u.trusted_text(model, 'abstract text model cps/blen/cb (as in u_utf8), vx_blen')
     emit(u, "impl<'store, 'slf> Text<'store, 'slf> for ResultTextSelection<'store>", 'ResultTextSelection')
     return u
+
+
+def build2():
+    """the second implementation: impl Text for ResultItem<'store, TextSelection> (same contracts)"""
+    u = Unit('u_subtext2', serves=['C12'])
+    common.target64(u)
+    u.item('src/types.rs', 'enum', 'Cursor', keep_derives=['Debug', 'Clone', 'Copy', 'PartialEq'])
+    u.item('src/error.rs', 'enum', 'StamError', keep_variants=['CursorOutOfBounds', 'OtherError'], keep_derives=['Debug'])
+    model = u_utf8.MODEL.split('/// R-outline: stands for the items of')[0]
+    u.trusted_text(model, 'abstract text model cps/blen/cb (as in u_utf8), vx_blen')
+    emit(u, "impl<'store, 'slf> Text<'store, 'slf> for ResultItem<'store, TextSelection>", 'ResultItemTextSelection')
+    return u
